@@ -13,6 +13,8 @@ The in-process correspondence drives the renderer packages directly and has to c
   was formatted before.
 * `rare histo`: every key with at least `--atleast` samples is displayed with its count – also rows with count 0 or a
   negative count whose key widens the key column (not drawn before 7b183e0).
+* `rare heatmap`: the `--scale` names are accepted / refused as `scalerByName` says; the legend line of a linear heatmap is
+  the strictly increasing key list from the minimum to the maximum with the cell of each key.
 * every renderer command on generated inputs with awkward keys and limits: no panic, exit status 0.
 """
 import os, re, subprocess, sys
@@ -200,6 +202,39 @@ def run(ctx):
         want = {k: v for k, v in counts.items() if v >= at_least}
         if shown != want:
             viol("histo-rows-vs-counts", argv=cmd, input=lines, shown=shown, want=want)
+
+    # ---------------------------------------------------------------- heatmap: the --scale names and the legend line
+    # (theorems scaler_names_table, heat_legend_line, legend_linear_exact, legend_linear_f64_boundary)
+    hm = ["-m", r"^(\S+) (\S+) (-?\d+)$", "-e", "{$ {1} {2} {3}}"]
+    for name, ok in [("linear", True), ("lin", True), ("", True), ("LINEAR", True), ("L\u0130N", True), ("log", True), ("Log10", True), ("LOG2", True),
+                     ("ln", False), ("log1", False), ("log 2", False), ("linea", False), ("lo\u212a", False), ("none", False)]:
+        p = subprocess.run([exe, "heatmap", "--snapshot", "--scale", name] + hm, input=b"x a 1\ny a 5\n", stdout=subprocess.PIPE, stderr=subprocess.PIPE, timeout=60)
+        runs += 1
+        if _panicked(p) or (p.returncode == 0) != ok or (not ok and b"invalid scaler" not in p.stderr):
+            viol("scale-name", name=name, want_accepted=ok, rc=p.returncode, stderr=p.stderr.decode("utf-8", "replace")[-300:])
+    n_legend = 12 if quick else 150
+    for i in range(n_legend):
+        mn, mx = [(0, 10), (0, 3), (-7, 40), (5, 6), (0, 1000000)][i] if i < 5 else sorted([r.pick([0, 0, 1, -3, -50, 7]) , r.pick([2, 9, 10, 11, 99, 100, 12345, 2 ** 40 + 1])])
+        data = ("x a %d\ny a %d\n" % (mn, mx)).encode()
+        p = subprocess.run([exe, "--nocolor", "--nounicode", "heatmap", "--snapshot", "--format", "{0}"] + hm, input=data, stdout=subprocess.PIPE, stderr=subprocess.PIPE, timeout=60)
+        runs += 1
+        if _panicked(p) or p.returncode != 0:
+            viol("heatmap-cli-failed", input=[mn, mx], rc=p.returncode, stderr=p.stderr.decode("utf-8", "replace")[-600:])
+            continue
+        # ScaleKeys(6, mn, mx) on the linear scale with the same binary64 operations, consecutive duplicates dropped
+        keys = []
+        for j in range(6):
+            k = int((float(mx) - float(mn)) * float(j) / 5.0 + float(mn))
+            if not keys or keys[-1] != k:
+                keys.append(k)
+        parts = []
+        for k in keys:
+            u = (float(k) - float(mn)) / (float(mx) - float(mn))
+            parts.append("-123456789"[int(u * 9.0)] + " " + str(k))
+        want = "  " + "    ".join(parts)          # row keys are one cell wide: indentation maxRowKeyWidth(0) + 1 … of the FIRST render
+        got = p.stdout.decode("utf-8", "replace").split("\n")[0]
+        if got.strip() != want.strip() or keys[0] != mn or keys[-1] != mx or keys != sorted(set(keys)):
+            viol("heatmap-legend", input=[mn, mx], shown=got, want=want)
 
     # ---------------------------------------------------------------- no panic, any renderer command
     n_sweep = 12 if quick else 120
